@@ -46,6 +46,17 @@ pub struct FrameAttempt {
     pub is_static: bool,
     pub target: Address,
     pub scheme: String,
+    pub gas_limit: u64,
+    /// address of the frame's code (call) or of the created account (create), when a frame started
+    pub code_address: Address,
+}
+#[derive(Clone, Debug, PartialEq)]
+pub enum MEv {
+    Step(usize),
+    FrameStart(usize),
+    /// an attempt that resolved without a frame (precompile, early rejection, empty code)
+    Immediate(usize),
+    FrameEnd(usize),
 }
 
 /// A SELFDESTRUCT instruction that completed (ground truth read from the public journaled state).
@@ -76,6 +87,8 @@ pub struct Mon {
     pub static_violations: Vec<(String, String)>,
     pub static_regions: u64,
     pub record_steps: bool,
+    /// interleaving of recorded steps and frame events
+    pub events: Vec<MEv>,
     pub steps: Vec<Step>,
     pub max_steps: usize,
     pub step_count: u64,
@@ -248,7 +261,10 @@ pub fn monitor_register<EXT: HasMon, DB: Database>(h: &mut EvmHandler<'_, EXT, D
                 mem_len_before: ml,
                 mem_len_after: interp.shared_memory.len(),
             };
-            host.external.mon().steps.push(s);
+            let m = host.external.mon();
+            m.steps.push(s);
+            let i = m.steps.len() - 1;
+            m.events.push(MEv::Step(i));
         }
     });
 
@@ -265,6 +281,8 @@ pub fn monitor_register<EXT: HasMon, DB: Database>(h: &mut EvmHandler<'_, EXT, D
             is_static: inputs.is_static,
             target: inputs.target_address,
             scheme: format!("{:?}", inputs.scheme),
+            gas_limit: inputs.gas_limit,
+            code_address: inputs.bytecode_address,
         };
         let want_static_check = {
             let m = ctx.external.mon();
@@ -301,6 +319,8 @@ pub fn monitor_register<EXT: HasMon, DB: Database>(h: &mut EvmHandler<'_, EXT, D
             is_static: false,
             target: Address::ZERO,
             scheme: format!("{:?}", inputs.scheme),
+            gas_limit: inputs.gas_limit,
+            code_address: Address::ZERO,
         };
         let r = old(ctx, inputs);
         finish_attempt(ctx, att, &r);
@@ -318,6 +338,8 @@ pub fn monitor_register<EXT: HasMon, DB: Database>(h: &mut EvmHandler<'_, EXT, D
             is_static: false,
             target: Address::ZERO,
             scheme: "EofCreate".into(),
+            gas_limit: inputs.gas_limit,
+            code_address: Address::ZERO,
         };
         let r = old(ctx, inputs);
         finish_attempt(ctx, att, &r);
@@ -350,17 +372,25 @@ fn finish_attempt<EXT: HasMon, DB: Database, E>(ctx: &mut Context<EXT, DB>, mut 
     let d = ctx.evm.journaled_state.depth();
     let m = ctx.external.mon();
     match r {
-        Ok(FrameOrResult::Frame(_)) => {
+        Ok(FrameOrResult::Frame(f)) => {
             att.started_frame = true;
+            match f {
+                revm::Frame::Create(c) => att.code_address = c.created_address,
+                revm::Frame::EOFCreate(c) => att.code_address = c.created_address,
+                _ => {}
+            }
             m.attempts.push(att);
             let idx = m.attempts.len() - 1;
             m.open.push(idx);
+            m.events.push(MEv::FrameStart(idx));
             m.sd_stack.push(vec![]);
         }
         Ok(FrameOrResult::Result(res)) => {
             att.depth_after = Some(d);
             att.result = Some(res.interpreter_result().result);
             m.attempts.push(att);
+            let idx = m.attempts.len() - 1;
+            m.events.push(MEv::Immediate(idx));
         }
         Err(_) => {
             att.depth_after = Some(d);
@@ -385,6 +415,7 @@ fn close_frame<EXT: HasMon, DB: Database>(ctx: &mut Context<EXT, DB>, res: Instr
     if let Some(idx) = m.open.pop() {
         m.attempts[idx].depth_after = Some(d);
         m.attempts[idx].result = Some(res);
+        m.events.push(MEv::FrameEnd(idx));
     }
     if let Some(evs) = m.sd_stack.pop() {
         let ok = matches!(res, InstructionResult::Stop | InstructionResult::Return | InstructionResult::SelfDestruct | InstructionResult::ReturnContract);
